@@ -497,8 +497,86 @@ func retErr(pa *Path) string {
 }
 
 func argKey(e *Event, i int) string {
-	if i < len(e.Args) && e.Args[i] != nil {
+	if i >= 0 && i < len(e.Args) && e.Args[i] != nil {
 		return e.Args[i].Key()
 	}
 	return ""
+}
+
+// ---- normalised facts of a path ------------------------------------------------------------------------
+
+// expandCalls rewrites a key so that call results read "callee(args)" instead of "call:callee@site".
+func expandCalls(pa *Path, key string) string {
+	for i := len(pa.Events) - 1; i >= 0; i-- {
+		e := pa.Events[i]
+		if e.Kind != "call" || e.Res == nil {
+			continue
+		}
+		rk := e.Res.Key()
+		if !strings.Contains(key, rk) {
+			continue
+		}
+		var as []string
+		for _, a := range e.Args {
+			if a == nil {
+				as = append(as, "_")
+			} else {
+				as = append(as, a.Key())
+			}
+		}
+		// variadic slices: show the stored elements
+		if va := varargsOf(pa, e); va != nil && len(as) > 0 {
+			var vs []string
+			for _, v := range va {
+				vs = append(vs, v.Key())
+			}
+			as[len(as)-1] = "[" + strings.Join(vs, ",") + "]"
+		}
+		key = strings.ReplaceAll(key, rk, e.Callee+"("+strings.Join(as, ",")+")")
+	}
+	return stripSites(key)
+}
+
+// factsOf lists the normalised non-constant decisions of a path as "fact=true|false".
+func factsOf(pa *Path) []string {
+	set := map[string]bool{}
+	for _, d := range pa.Decisions {
+		if d.Key == "true" || d.Key == "false" || strings.HasPrefix(d.Key, "select@") {
+			continue
+		}
+		set[expandCalls(pa, d.Key)+"="+fmt.Sprint(d.Val)] = true
+	}
+	return sortedKeys(set)
+}
+
+func sameSet(a, b []string) (missing, extra []string) {
+	ma, mb := map[string]bool{}, map[string]bool{}
+	for _, x := range a {
+		ma[x] = true
+	}
+	for _, x := range b {
+		mb[x] = true
+	}
+	for _, x := range b {
+		if !ma[x] {
+			missing = append(missing, x)
+		}
+	}
+	for _, x := range a {
+		if !mb[x] {
+			extra = append(extra, x)
+		}
+	}
+	return
+}
+
+// inlineAllExcept inlines every library callee with a body except the named ones.
+func (p *Program) inlineAllExcept(stop ...string) func(fn *ssa.Function, depth int) bool {
+	st := map[string]bool{}
+	for _, s := range stop {
+		st[s] = true
+	}
+	return func(fn *ssa.Function, depth int) bool {
+		return depth <= 4 && p.isLib(fn) && !st[p.FuncName(fn)]
+	}
 }
